@@ -88,7 +88,7 @@ def _job_worker(conn, cid, params, tier, seed, concrete, prop=None, sample=0, qu
                         Explorer(ct.harness, params=p, seed=seed).run_concrete(
                             {}, [], sampler=Sampler(concrete["prelude_sample"], ct.budget.get("sample_max_mag")))
                     else:
-                        Explorer(ct.harness, params=p, seed=seed).run_concrete({}, [])
+                        Explorer(ct.harness, params=p, seed=seed).run_concrete({}, list(concrete.get("prelude_choices") or []))
                 except BaseException:  # noqa - not judged
                     pass
             sub = ex.run_concrete(concrete["inputs"], concrete["choices"])
@@ -393,7 +393,8 @@ def check_property(prop, tier="quick", seed=0, only=None, verbose=False, record_
 
     # native replay of every counter model (fresh processes, concrete mode)
     rj = [dict(cid=j["cid"], params=j["params"], tier=tier, seed=seed, prop=prop,
-               concrete=dict(inputs=f["inputs"], choices=f["choices"], prelude_sample=f.get("prelude_sample")))
+               concrete=dict(inputs=f["inputs"], choices=f["choices"], prelude_sample=f.get("prelude_sample"),
+                             prelude_choices=f.get("prelude_choices")))
           for j, f in replay_jobs if f["kind"] in ("sat", "concrete")]
     rres = run_jobs(rj, nproc, 300) if rj else []
     # a counter-model that does not reproduce in a fresh process may need what an earlier run of the same harness left behind
@@ -417,7 +418,7 @@ def check_property(prop, tier="quick", seed=0, only=None, verbose=False, record_
         rep = dict(property=prop, contract=cid, params=_jsonable(j["params"]), obligation=f["label"],
                    inputs=f["inputs"], choices=f["choices"], detail=f.get("detail"), solver=f["kind"],
                    model=f.get("model"), smt2=f.get("smt2"), tier=tier, seed=seed,
-                   prelude_sample=f.get("prelude_sample"),
+                   prelude_sample=f.get("prelude_sample"), prelude_choices=f.get("prelude_choices"),
                    native_replay=dict(confirmed=confirmed, needs_an_earlier_run_in_the_same_process=bool((rr or {}).get("after_prelude")),
                                       failures=(rr or {}).get("failures"), error=(rr or {}).get("error")),
                    targets=reg[cid].targets)
@@ -596,7 +597,7 @@ def _z3v():
 def replay_file(path):
     rep = json.load(open(path))
     j = dict(cid=rep["contract"], params=rep["params"], tier=rep.get("tier", "quick"), seed=rep.get("seed", 0), prop=rep.get("property"),
-             concrete=dict(inputs=rep["inputs"], choices=rep["choices"], prelude_sample=rep.get("prelude_sample"),
+             concrete=dict(inputs=rep["inputs"], choices=rep["choices"], prelude_sample=rep.get("prelude_sample"), prelude_choices=rep.get("prelude_choices"),
                            prelude=bool((rep.get("native_replay") or {}).get("needs_an_earlier_run_in_the_same_process"))))
     r = run_jobs([j], 1, 600)[0]
     print(json.dumps(dict(obligation=rep["obligation"], reproduced=bool(r.get("failures")), failures=r.get("failures"), error=r.get("error")), indent=1, default=str))
